@@ -1,30 +1,11 @@
 import CSD.Lemmas.HashSearch
+import CSD.Model.HashRP
 import CSD.Lemmas.RPDAC2
 
 /-! `StringDictionaryHASHRPDAC::locate`: double hashing, the string of a cell compared through the
 grammar (`extractStringAndCompareDAC`) at the DAC position given by the cell's rank. -/
 namespace CSD.Hash
 open CSD CSD.RePair CSD.PFC
-
-/-- The probe function of the real `locate`: `none` = go on, `some none` = a comparison read out of
-bounds, `some (some r)` = answer `r`. -/
-def lfRP (d : HDict) (g : Grammar) (seqs : List (List Nat)) (q : Str) (i : Nat) : Option (Option Nat) :=
-  match d.table.getD (pr d.tsize q i) none with
-  | none => some (some 0)
-  | some _ =>
-    let pos := rankOcc d.table (pr d.tsize q i)
-    match seqs[pos - 1]? with
-    | none => some none
-    | some syms =>
-      match RPDAC.compareDAC g syms (RPDAC.bytesNat q) with
-      | none => some none
-      | some c => if c = 0 then some (some pos) else none
-
-/-- `StringDictionaryHASHRPDAC::locate`. -/
-def locateRP (d : HDict) (g : Grammar) (seqs : List (List Nat)) (q : Str) : Option Nat :=
-  match (List.range d.tsize).findSome? (lfRP d g seqs q) with
-  | none => some 0
-  | some r => r
 
 /-- The DAC holds, at position `id`, a symbol sequence expanding to the string with ID `id`. -/
 structure StoresRP (d : HDict) (g : Grammar) (seqs : List (List Nat)) : Prop where
@@ -60,6 +41,9 @@ theorem locateRP_eq {d : HDict} (gd : GoodDict d) (hS : ∀ s ∈ d.S, nulFree s
   have hpt : ∀ i ∈ List.range d.tsize, lfRP d g seqs q i = (lf d q i).map some := by
     intro i _
     unfold lfRP lf
+    have hpr : probe (bitwisehash q d.tsize) (stepValue q d.tsize) d.tsize i = pr d.tsize q i := rfl
+    have hnb : natBytes q = RPDAC.bytesNat q := rfl
+    rw [hpr, hnb]
     cases hc : d.table.getD (pr d.tsize q i) none with
     | none => rfl
     | some k =>
